@@ -1502,7 +1502,9 @@ impl AllowedRange {
     #[must_use]
     /// Return true if the value is present in the allowed range.
     pub fn contains(&self, value: i64) -> bool {
-        self.min <= value && value < self.max
+        // `max` is exclusive, but `i64::MAX` (see `no_check`) stands for "no upper bound": the value
+        // `i64::MAX` itself must be accepted by an unchecked relocation.
+        self.min <= value && (value < self.max || self.max == i64::MAX)
     }
 
     /// Returns how far we're outside the allowed range.
